@@ -157,6 +157,11 @@ func (f *Track2) unpack(raw []byte) error {
 		return errors.New("invalid track data")
 	}
 
+	// forget the components of a previously unpacked value: groups that are
+	// empty after trimming below must not keep their old content
+	f.PrimaryAccountNumber, f.Separator, f.ExpirationDate = "", "", nil
+	f.ServiceCode, f.DiscretionaryData = "", ""
+
 	matches := track2Regex.FindStringSubmatch(string(raw))
 	for index, val := range matches {
 		value := strings.TrimSpace(val)
